@@ -22,6 +22,7 @@ VARIANTS = (
     ("failed", cases.RICH + (("rc:", 1),)),
     ("failed-sess", cases.RICH + (("sessions:", 1), ("rc:", 3))),
     ("encrypt", cases.RICH + (("sessions:", 1), ("attrs:", ("v", 0x40)))),
+    ("encrypt-empty", (("sessions:", 1), ("attrs:", ("v", 0x60)))),
     ("decrypt", cases.RICH + (("sessions:", 1), ("attrs:", ("v", 0x20)))),
     ("encrypt-pw", cases.RICH + (("sessions:", 1), ("attrs:", ("v", 0x40)), ("val:.authorizationArea[0].sessionHandle", ("v", 0x40000009)))),
     ("pw+encrypt", cases.RICH + (("sessions:", 2), ("attrs:.authorizationArea[1]", ("v", 0x40)), ("val:.authorizationArea[0].sessionHandle", ("v", 0x40000009)))),
@@ -36,6 +37,8 @@ def pair(ccname, variant, seed):
     u = {"kind": "stream", "ccs": [ccname], "label": f"{ccname}/{variant}", "k": 0, "defaults": d}
     g = encode.Gen(None)
     c = V.C()[ccname]
+    if variant == "encrypt-empty" and not g.first_param_is_tpm2b(c["cp"]):
+        return None
     if "encrypt" in variant and not g.first_param_is_tpm2b(c["rp"]):
         return None
     if "decrypt" in variant and not g.first_param_is_tpm2b(c["cp"]):
